@@ -312,6 +312,16 @@ class Policy(asyncio.DefaultEventLoopPolicy):
         return ThreadedSimLoop(self.sched, me or f"L{self.count}")
 
 
+def _quiet_unraisable(unraisable, _orig=sys.unraisablehook):
+    """Loops torn down with suspended coroutines (bodies cut by force_stop) make the GC complain on stderr; nothing else is hidden."""
+    if isinstance(unraisable.exc_value, RuntimeError) and "ignored GeneratorExit" in str(unraisable.exc_value):
+        return
+    _orig(unraisable)
+
+
+sys.unraisablehook = _quiet_unraisable
+
+
 def run_threaded(tape, main_factory, preempt_den=6):
     """Run coroutine main_factory(sched, loop) on loop 'M' in the calling thread. Returns (outcome, value, sched)."""
     sched = Baton(tape, preempt_den=preempt_den)
